@@ -1304,7 +1304,9 @@ class Run:
             return
 
         info = self.tinfo[tid]
-        v = ("started", tid, value)
+        # ["started", None]: started() without a value / with None - a start value like any
+        # other (also through return_handle=True and handle.start_value)
+        v = None if value is None else ("started", tid, value)
         self.ev(tid, "started-call", value)
         starter = self.pending_start.get(tid)
         last = self.sh.last_eff.get(starter) if starter is not None else None
